@@ -1069,6 +1069,7 @@ class TransportLayerLogic:
                     if self.active_send_request.generator.depleted():
                         read_tx_queue = True  # Read another frame from tx_queue
                         self.active_send_request.complete(True)
+                        self.active_send_request = None     # Done with it. Must not be completed a second time
                     else:
                         size_on_first_byte = (self.active_send_request.generator.remaining_size() + len(self.address.get_tx_payload_prefix())) <= 7
                         if self.params.tx_data_min_length is not None and self.params.tx_data_min_length > 8:
